@@ -123,8 +123,10 @@ class P(ServeProp):
                     # not even have the same length): compare with the directory and the two length headers blanked
                     import re as _re
                     def scrub(x):
-                        x = _re.sub(rb"/[^ \r\n'\"]*?/impl\d+/w", b"@W@", blank_volatile(x))
-                        return _re.sub(rb"(Content-Length|Content-Range): [^\r\n]*", rb"\1: ", x)
+                        # error bodies are free text (they quote the scratch directory, or an offset into a target that holds it): the heads
+                        # must agree, with the two length headers blanked; that both members are complete is checked per member
+                        sp = httpcanon.split_head(blank_volatile(x))
+                        return _re.sub(rb"(Content-Length|Content-Range): [^\r\n]*", rb"\1: ", sp[0]) if sp else x
                     if scrub(a) == scrub(b):
                         continue
                 fails.append((d["1"], "piecewise-transport-received-%d-of-%d-bytes" % (len(b), len(a))))
